@@ -177,7 +177,7 @@ mut('C08', 'heap-tail-trim', 'sim.py', '                    del self.released[-1
 mut('C08', 'heap-max-size', 'sim.py', '        self.max_size = max(self.max_size, self.current_size)\n', '', 'C08.heap-maxsize')
 mut('C08', 'heap-merge-prev', 'sim.py', '                chunksize = size + self.chunks[prev]\n                del self.chunks[loc]\n', '                chunksize = size + self.chunks[prev]\n', 'C08.heap-tiling')
 mut('C08', 'caps-min-dropped', 'wave_sim.py', 'super().__init__(circuit, c_caps=c_caps, c_caps_min=4, a_ctrl=a_ctrl, c_reuse=c_reuse, strip_forks=strip_forks)', 'super().__init__(circuit, c_caps=c_caps, c_caps_min=2, a_ctrl=a_ctrl, c_reuse=c_reuse, strip_forks=strip_forks)', 'C08.alloc')
-mut('C08', 'stem-one-level', 'sim.py', "                while prev_line.driver.kind == '__fork__':\n                    prev_line = prev_line.driver.ins[0]\n", '', 'C08.alias')
+mut('C08', 'stem-one-level', 'sim.py', "                while prev_line.driver.kind == '__fork__' and prev_line.driver not in interface_dict:\n                    prev_line = prev_line.driver.ins[0]\n", '', 'C08.alias')
 
 # ------------------------------------------------------------------ C03
 mut('C03', 'arm-a-wrong-bit', 'wave_sim.py', '            a_cur += 1\n            inputs ^= 1\n', '            a_cur += 1\n            inputs ^= 2\n', ['C03.parity', 'C03.siblings'])
@@ -316,3 +316,15 @@ neutral('C08', 'n-heap-local-name', 'sim.py', 'chunksize', 'csz', count='all')
 
 mut('C12', 'inplace-accumulate-shape', 'logic.py', '    for inp in ins[1:]: any_zero = any_zero | (inp == ZERO)', '    for inp in ins[1:]: any_zero |= (inp == ZERO)', 'C12.broadcast')
 mut('C12', 'bp-inplace-accumulate-shape', 'logic.py', '    for inp in ins[1:]: any_unknown = any_unknown | (inp[..., 0, :] ^ inp[..., 1, :])\n    any_one = ins[0][..., 0, :] & ins[0][..., 1, :]\n', '    for inp in ins[1:]: any_unknown |= inp[..., 0, :] ^ inp[..., 1, :]\n    any_one = ins[0][..., 0, :] & ins[0][..., 1, :]\n', 'C12.broadcast')
+
+# ------------------------------------------------------------------ rules added after the sub-agent round
+mut('C18', 'launch-not-reset', 'stil.py', '                    capture = {}\n                    launch = {}\n', '                    capture = {}\n', 'C18.extract')
+mut('C18', 'sload-not-reset', 'stil.py', '                sload = {}\n                for si_port in self.si_ports:', '                for si_port in self.si_ports:', 'C18.extract')
+mut('C18', 'pattern-field-order', 'stil.py', 'self.patterns.append(ScanPattern(sload, launch, capture, unload))', 'self.patterns.append(ScanPattern(sload, capture, launch, unload))', 'C18.extract')
+mut('C20', 'step-sign-dropped', 'def_file.py', 'do_step: "DO" NUMBER "BY" NUMBER "STEP" (NUMBER|SIGNED_NUMBER) (NUMBER|SIGNED_NUMBER)', 'do_step: "DO" NUMBER "BY" NUMBER "STEP" "-"? NUMBER "-"? NUMBER', 'C20.positions')
+mut('C10', 'sub-remove-without-detach', 'circuit.py', '                ll.reader = None\n                ll.remove()', '                ll.remove()', 'C10.pins')
+mut('C09', 'sub-remove-without-detach', 'circuit.py', '                ll.reader = None\n                ll.remove()', '                ll.remove()', 'C10.pins')
+mut('C16', 'dff-qn-from-q-line', 'sim.py', 'ops.append((INV1, n.outs[1].index, inp_idx, self.zero_idx', 'ops.append((INV1, n.outs[1].index, n.outs[0].index, self.zero_idx', 'C01.wiring')
+mut('C06', 'strip-port-forks', 'sim.py', '                if f in interface_dict: continue  # port forks (e.g. from bench) are evaluated as PI/PPI, their outputs are no branches\n', '', 'C08.alias')
+mut('C01', 'release-inside-op-loop', 'sim.py', '                self.c_locs[o_idx], self.c_caps[o_idx] = h.alloc(cap), cap\n            if c_reuse:\n                for loc in free_set:\n                    h.free(loc)', '                self.c_locs[o_idx], self.c_caps[o_idx] = h.alloc(cap), cap\n                if c_reuse:\n                    for loc in free_set:\n                        h.free(loc)\n                    free_set = set()', 'C07.release')
+mut('C05', 'overflow-parity-lost', 'wave_sim.py', '                    previous_t = cbuf[z_mem + z_cur - 1, sim]\n                    z_cur -= 1', '                    previous_t = cbuf[z_mem + z_cur - 1, sim]', 'C03.parity')
